@@ -671,3 +671,12 @@ package schema
 //@ interface Object.ValidateCompatibility(this, typeOrData) -> err
 //@   names (err == nil) == compatOK(this, typeOrData)
 //@   assigns nothing
+
+// map error paths: "{key}" for a rejected key, "[key]" for a rejected value (C17)
+//@ spec mapKeyRV(data any, j int) RV = rv_key(rv_of(data), j)
+//@ func MapSchema.Validate(m, data) -> err
+//@   checks err != nil && kindOf(data) == KindMap && sizeOK(m.MinValue, m.MaxValue, listLen(data)) ==> (!validOK(m.KeysValue, mapKey(data, $idx1 + 1)) ? err == addedSeg(validErr(m.KeysValue, mapKey(data, $idx1 + 1)), sprintf1("{%v}", any(mapKeyRV(data, $idx1 + 1)))) : err == addedSeg(validErr(m.ValuesValue, mapVal(data, $idx1 + 1)), sprintf1("[%v]", any(mapKeyRV(data, $idx1 + 1)))))
+//@   checks err != nil && !(kindOf(data) == KindMap && sizeOK(m.MinValue, m.MaxValue, listLen(data))) ==> leafCE(err)
+//@ func MapSchema.Unserialize(m, data) -> res, err
+//@   checks err != nil && kindOf(data) == KindMap && sizeOK(m.MinValue, m.MaxValue, listLen(data)) ==> (!unserOK(m.KeysValue, mapKey(data, $idx1 + 1)) ? err == addedSeg(unserErr(m.KeysValue, mapKey(data, $idx1 + 1)), sprintf1("{%v}", mapKey(data, $idx1 + 1))) : err == addedSeg(unserErr(m.ValuesValue, mapVal(data, $idx1 + 1)), sprintf1("[%v]", mapKey(data, $idx1 + 1))))
+//@   checks err != nil && !(kindOf(data) == KindMap && sizeOK(m.MinValue, m.MaxValue, listLen(data))) ==> leafCE(err)
